@@ -12,6 +12,7 @@
      flag = false  it holds unconditionally (C20_hist_history_if_publishes_last).
    Which case holds now is the single obligation of Inst/C20Finding.v (resp. Inst/C20Fixed.v). *)
 From Coq Require Import String.
+From SqlModel.Gen Require LexPins.
 From SqlModel Require Import Base.
 From SqlModel.Sys Require Import Singleton SchedObs History HistoryX.
 From SqlModel.Gen Require Import SingletonProg StateInv.
@@ -221,3 +222,9 @@ Proof. exact inventory_checked. Qed.
 
 Theorem C20_prog_well_locked : well_locked expected_kws get_default_instance_prog = true.
 Proof. exact prog_well_locked. Qed.
+
+(* the hand-modelled scan loop / keyword lookup / class-level state of sqlparse/lexer.py still have the pinned shape
+   (tools/regen/gen_lexpins.py fails closed otherwise and this file no longer compiles) *)
+Example C20_lexer_shape : SqlModel.Gen.LexPins.lexer_shape_checked = true.
+Proof. reflexivity. Qed.
+
